@@ -196,7 +196,7 @@ def run(ctx):
         origin = [0, 4, -3][i % 3]
         obs = observe(cfg, origin, i)
         ctx.evaluations += 1
-        sc = {"cfg": cfg, "origin": origin, "variant": i % 6}
+        sc = {"cfg": cfg, "origin": origin, "variant": i % 60}
         if obs != exp:
             ctx.violation(sc, "spec->code: expected %s observed %s" % (canon(exp)[:300], canon(obs)[:300]))
         if not exp["rej"]:
@@ -217,7 +217,7 @@ def run(ctx):
         obs = observe(cfg, origin, t)
         ctx.evaluations += 1
         if "crash" in obs:
-            ctx.violation({"cfg": cfg, "origin": origin, "variant": t % 6}, "crash: " + obs["crash"])
+            ctx.violation({"cfg": cfg, "origin": origin, "variant": t % 60}, "crash: " + obs["crash"])
             continue
         recs.append({"tid": t, "cfg": cfg, "obs": obs, "origin": origin})
         if not obs["rej"]:
@@ -226,7 +226,7 @@ def run(ctx):
     ctx.traces += len(recs) - len(rejects)
     for rec in recs:
         if rec["tid"] in rejects:
-            ctx.violation({"cfg": rec["cfg"], "origin": rec["origin"], "variant": rec["tid"] % 6},
+            ctx.violation({"cfg": rec["cfg"], "origin": rec["origin"], "variant": rec["tid"] % 60},
                           "code->spec: TLC rejects recorded evaluate() run, clause %s; observed %s"
                           % (rejects[rec["tid"]], canon(rec["obs"])[:300]))
     return ctx.finish(
